@@ -147,19 +147,26 @@ theorem keyClass_ok : ∀ (k : Node) (looped : Bool), k.isBasicTyp = true → No
 end
 
 /-- A tree the compilability model accepts meets the structural hypothesis of the compare/length theorems. -/
-theorem compilable_EmitOK (root : Node) (hwf : NodeWF root = true) (h : uncompilable root = none) :
+theorem uncompilableShape_of_uncompilable (root : Node) (h : uncompilable root = none) : uncompilableShape root = none := by
+  unfold uncompilable at h
+  cases hs : uncompilableShape root with
+  | none => rfl
+  | some c => simp [hs] at h
+
+theorem compilable_EmitOK (root : Node) (hwf : NodeWF root = true) (h0 : uncompilable root = none) :
     EmitOK root = true := by
+  have h := uncompilableShape_of_uncompilable root h0
   cases root with
-  | basic i => simp [uncompilable] at h
+  | basic i => simp [uncompilableShape] at h
   | struct i chld =>
-    simp only [uncompilable] at h
+    simp only [uncompilableShape] at h
     simpa [EmitOK] using fieldsClass_ok false chld (by simpa [NodeWF] using hwf) h
   | slice i e =>
-    simp only [uncompilable] at h
+    simp only [uncompilableShape] at h
     have := elemClass_ok e (by simpa [NodeWF] using hwf) h
     simp [EmitOK, this.1, this.2]
   | map i k v =>
-    simp only [uncompilable] at h
+    simp only [uncompilableShape] at h
     simp only [NodeWF, Bool.and_eq_true] at hwf
     cases hk : keyClass k true with
     | some c => simp [hk] at h
